@@ -130,7 +130,7 @@ func TestVerifC04API(t *testing.T) {
 		}
 	}
 	r.Count("api_routes_from_live_router", int64(len(routes)))
-	vmon.AdminAuthMonitor(r, vmon.AdminCfg{TrustedProxy: trusted, Name: "api", Routes: routes, Batches: r.N(2, 150),
+	vmon.AdminAuthMonitor(r, vmon.AdminCfg{TrustedProxy: trusted, Name: "api", Routes: routes, Batches: r.N(2, 40),
 		SetUsers: func(uj string) error {
 			var users []conf.AuthInternalUser
 			if err := json.Unmarshal([]byte(uj), &users); err != nil {
